@@ -205,7 +205,7 @@ pub fn long_strings(cores: &[String], with_share: bool) -> Vec<String> {
 
 pub fn c16(ctx: &Ctx) {
     let sigma = ['/', '+', '#', '$', 'a', '\0', 'é'];
-    let (n_plain, n_pref, n_mut) = if ctx.thorough() { (8, 6, 4) } else { (7, 5, 3) };
+    let (n_plain, n_pref, n_mut) = if ctx.thorough() { (9, 7, 5) } else { (8, 6, 4) };
     ctx.set_rule(&format!(
         "all strings of length <= {n_plain} over {{'/','+','#','$','a',NUL,'é'}} alone, of length <= {n_pref} behind {} '$share' prefix shapes and of length <= {n_mut} behind every single-letter mutation of '$share/'; padded long strings around 65,535 bytes; each through is_invalid, try_from and SUBSCRIBE/UNSUBSCRIBE of both families; oracle = split-based predicate of mqtt-ref::text; non-trivial = strings the specification accepts",
         C16_PREFIXES.len()
@@ -382,7 +382,7 @@ fn c17_pair(a: &TopicFilter, b: &TopicFilter) -> Option<String> {
 pub fn c17(ctx: &Ctx) {
     // multi-byte characters of every UTF-8 width in the share name and in the filter
     let sigma = ['/', '+', '#', 'a', 'é', '€', '😀'];
-    let (n_plain, n_share) = if ctx.thorough() { (6, 6) } else { (5, 5) };
+    let (n_plain, n_share) = if ctx.thorough() { (8, 7) } else { (7, 6) };
     ctx.set_rule(&format!(
         "every valid filter among all strings of length <= {n_plain} over {{'/','+','#','a','é','€','😀'}} alone and of length <= {n_share} behind '$share/', plus share names and filters of boundary lengths (247..=257, 65,520..): accessors against the unique split of the text, text round trip, equality/order/hash of independently built equal texts; all ordered pairs of a filter subset for ==, cmp, partial_cmp, hash; non-trivial = shared filters"
     ));
@@ -439,7 +439,7 @@ pub fn c17(ctx: &Ctx) {
             subset.push(sh);
         }
     });
-    let limit = if ctx.thorough() { 2500 } else { 900 };
+    let limit = if ctx.thorough() { 4000 } else { 1600 };
     // deterministic thinning that keeps neighbours (prefix-related strings) together
     if subset.len() > limit {
         let step = subset.len() as f64 / limit as f64;
@@ -592,7 +592,7 @@ pub fn c18_one(s: &str, doors: bool) -> Option<String> {
 
 pub fn c18(ctx: &Ctx) {
     let sigma = ['/', '+', '#', '$', 'a', 'S', '\0', 'é'];
-    let (n_plain, n_pref) = if ctx.thorough() { (7, 5) } else { (6, 4) };
+    let (n_plain, n_pref) = if ctx.thorough() { (8, 6) } else { (7, 5) };
     let prefixes = ["$share/", "$share", "$SYS/", "$SYS", "$sys/", "$Share/", "$SYS//", "$shar", "$SY"];
     ctx.set_rule(&format!(
         "all strings of length <= {n_plain} over {{'/','+','#','$','a','S',NUL,'é'}} alone and of length <= {n_pref} behind {:?}; padded long strings around 65,535 bytes; through is_invalid, try_from, PUBLISH topic, will topic and response-topic properties of both families; oracle: valid iff <= 65,535 bytes and no '+', '#', NUL; non-trivial = valid names",
